@@ -197,7 +197,7 @@ def lean_check(prop_id):
             res["broken"].append(f"theorem {name} depends on {axioms}")
     # every theorem of the property file must be audited
     props_src = strip_comments(open(os.path.join(LEAN, "Tuc", "Props", f"{prop_id}.lean")).read())
-    declared = re.findall(r"^\s*theorem\s+([A-Za-z0-9_.']+)", props_src, re.M)
+    declared = re.findall(r"^\s*(?:@\[[^\]]*\]\s*)?(?:protected\s+)?theorem\s+([A-Za-z0-9_.'?!₀-₉]+)", props_src, re.M)
     audited = {n.split(".")[-1] for n, _ in res["theorems"]}
     for d in declared:
         if d.split(".")[-1] not in audited:
